@@ -437,13 +437,20 @@ theorem handleAllocationDone_life (m : M) (ex mi : Bool) (h : Life m.1) (ha : m.
 
 theorem allocatorRun_life (m : M) (h : Life m.1) (ha : m.1.allocator = true) : Life (allocatorRun m).1 := by
   have hr := h.running_of_alloc ha
-  unfold allocatorRun
-  dsimp only
+  rw [allocatorRun_eq]
   split
-  · simp only [onSt_fst]
-    exact stop_life' _ _ hr h.leaked (fun hi => ⟨(h.ni hi).2.2.2.1, (h.ni hi).2.2.2.2⟩)
+  · unfold allocFail
+    simp only [onSt_fst]
+    refine stop_life' _ _ (hr.congr (by simp) (by simp)) (by simpa using h.leaked) (fun hi => ?_)
+    have hi' : m.1.info = false := by simpa using hi
+    refine ⟨by simpa using (h.ni hi').2.2.2.1, ?_⟩
+    unfold hadForget
+    simp only [onSt_fst]
+    split
+    · rfl
+    · simpa using (h.ni hi').2.2.2.2
   · apply handleAllocationDone_life
-    · simp only [onSt_fst]
+    · simp only [allocOkOpen, allocData, onSt_fst]
       refine h.set_files rfl rfl rfl rfl rfl rfl rfl rfl rfl rfl rfl rfl rfl rfl rfl ?_
       intro f hf hp
       simp only [List.getD_eq_getElem?_getD] at hp
@@ -451,7 +458,7 @@ theorem allocatorRun_life (m : M) (h : Life m.1) (ha : m.1.allocator = true) : L
     · simpa using ha
     · -- every non-padding file has just been opened
       intro f hf hp
-      simp only [onSt_fst, List.getD_eq_getElem?_getD] at hf hp ⊢
+      simp only [allocOkOpen, allocData, onSt_fst, List.getD_eq_getElem?_getD] at hf hp ⊢
       simp [hf, hp]
 
 end Rain.Loop
